@@ -37,8 +37,8 @@ theorem IntT.inDom_bound (t : IntT) (v : Int) (h : t.inDom v) : -(2 : Int) ^ 64 
 
 theorem fixed_read_eq (cc : CustomCodec) (base : IntT) (bits : Nat) (bs : Bytes) :
     (FixedPointT.init base bits).read cc bs
-      = (do let (v, r) ← base.unpack bs; pure (fixedOfWire bits v, r)) := by
-  simp only [FixedPointT.read, init_denominator, decode, fixedOfWire]
+      = (do let (v, r) ← base.unpack bs; let x ← intTrueDiv v (2 ^ bits); pure (x, r)) := by
+  simp only [FixedPointT.read, FixedPointT.init, decode]
   show (do let __x ← (do let __x ← base.unpack bs; pure (Value.int __x.fst, __x.snd)); _) = _
   cases base.unpack bs <;> rfl
 
